@@ -4,7 +4,7 @@ import Gms.Model.RangeTree
 import Gms.Model.RangeIO
 open Gms.Proto Gms.Range Gms.RangeTree Gms.RangeIO
 
-def rorFuel : Nat := 100000
+def rorFuel : Nat := 5000
 
 def showRes (r : Res (List Range)) : String :=
   match r with
